@@ -199,10 +199,11 @@ func runDriverParallel(env *Env, cases [][]string, workers int) ([]string, error
 // CorrCase is one correspondence case: the driver fields, the implementation's
 // canonical answer, a human-readable rendering and a coverage class.
 type CorrCase struct {
-	Fields []string
-	Impl   string
-	Human  string
-	Class  string // non-trivial class name, "" = trivial
+	Fields  []string
+	Impl    string
+	Human   string
+	Class   string // non-trivial class name, "" = trivial
+	Lenient string // non-empty: a disagreement with the model is counted under this label, not as a mismatch
 }
 
 func caseKey(fields []string) string {
@@ -264,6 +265,12 @@ func compareWithModelX(env *Env, res *Result, cases []CorrCase, alt bool) []stri
 			} else {
 				res.count("order-dependent-outside-sampled-orders")
 			}
+			continue
+		}
+		if outs[i] != c.Impl && c.Lenient != "" {
+			// outside what the model can answer for (e.g. cyclic definitions: the result depends on the
+			// iteration order of TWO independent map loops, of which the driver samples a few)
+			res.count("not-compared:" + c.Lenient)
 			continue
 		}
 		if outs[i] != c.Impl {
